@@ -20,7 +20,7 @@ NOT decided: that the sweep visits every bucket; chain contents over histories; 
 """
 from .. import nw, typestate
 from ..facts import Prover, _k, strip_bitcasts
-from ..hashmodel import Roles, callgraph, reach, fld, is_load_of, hash_calls, at_subscripts
+from ..hashmodel import Roles, callgraph, reach, fld, is_load_of, hash_calls, at_subscripts, writer_between
 from ..ir import const_int, resolve_addr, mem_access, unit_step
 from .util import header_functions, floc
 
@@ -143,12 +143,77 @@ def run(m, rep, tier):
                 l6.violation('cstl_hash_find:visit', 'the caller\'s visit function can be invoked for an element whose key was not compared equal to the probe key '
                              '(elements of other keys sharing the bucket would be offered)', c.loc(), {})
 
+    # ---- L8 --------------------------------------------------------------------------
+    l8 = rep.rule('L8', 'the bucket array is only ever grown, or cut to the bucket count read after the forced rehash', floor=2)
+    setters = [g for g in mod.defined() if any(c.op == 'call' and c.callee == 'realloc' and is_load_of(g, strip_bitcasts(g, c.o[0]), 'bucket.at') for c in g.all_insts())]
+    if not setters:
+        l8.undecided('capacity-setter', 'no function reallocating the bucket array found')
+    for g in setters:
+        for f in mod.defined():
+            for c in f.calls(g.name):
+                check_capacity_request(m, f, c, g, l8)
+
     # ---- L7 --------------------------------------------------------------------------
     l7 = rep.rule('L7', 'the bucket array byte size cannot wrap', floor=1)
     for name in sorted(header_functions(m, ('hash.h',))):
         f = m.ifn(name)
         if f is not None:
             nw.check_entry(f, l7)
+
+    # ---- L9: swap completeness ------------------------------------------------------------
+    from .util import check_swap_complete
+    _sw = rep.rule('L9', 'swap exchanges every member of the two tables (array, geometry, pending geometry, clean bit, count, offset)', floor=1)
+    for _n in ('cstl_hash_swap',):
+        check_swap_complete(m, _n, _sw)
+
+
+def check_capacity_request(m, f, c, setter, rule):
+    """the size handed to the capacity setter: larger than the present capacity (growth cuts nothing), or the table's
+    bucket count read after the completer ran (nothing pending, so no bucket beyond it is in use)"""
+    pv = Prover(f)
+    site = '%s->%s' % (f.name, setter.name)
+    # which argument is the size: the one the setter multiplies / stores as capacity = its non-table integer parameter
+    args = [o for o in c.o[1:]]
+    if len(args) != 1:
+        rule.undecided(site, 'capacity setter with %d size arguments' % len(args), c.loc())
+        return
+    v = args[0]
+    comp = [x for x in f.all_insts() if x.op == 'call' and x.callee and x is not c and writer_of_count(f, x)]
+    facts = pv.facts_at(c)
+    grows = any((op == 'ult' and y == v and is_load_of(f, x, 'bucket.capacity')) for (op, x, y) in facts)
+    vi = f.get(v) if isinstance(v, str) else None
+    if grows:
+        rule.ok(site, 'requested size is above the present capacity (growth)', c.loc())
+    elif vi is not None and vi.op == 'load' and fld(f, vi) == 'bucket.count':
+        w = writer_between(f, vi, c, 'bucket.count')
+        doms = [x for x in comp if f.dominates(x, vi)]
+        if w is not None:
+            rule.violation(site, 'the array is cut to a bucket count read at %s, before %s() at %s may adopt a larger pending count: buckets beyond the '
+                           'stale count, and the elements in them, are cut off' % (vi.loc(), w.callee, w.loc()), c.loc(), {})
+        elif not doms:
+            rule.violation(site, 'the array is cut to the current bucket count at %s without first forcing a pending rehash to finish: while a grow is '
+                           'pending, relocated elements live in buckets beyond that count' % c.loc(), c.loc(), {})
+        else:
+            rule.ok(site, 'cut to bucket.count read after %s()' % doms[0].callee, c.loc())
+    else:
+        w = None
+        for ld in f.all_insts():
+            if ld.op == 'load' and fld(f, ld) in ('bucket.count', 'bucket.rh.count') and f.dominates(ld, c):
+                w = w or writer_between(f, ld, c, 'bucket.count')
+        from ..hashmodel import classify_pa
+        eff, why = classify_pa(f, v, c, 'count')
+        if eff and any(f.dominates(x, c) for x in comp):
+            rule.ok(site, 'cut to the effective bucket count (%s), which is what the forced rehash adopts' % why, c.loc())
+        elif w is not None and not grows:
+            rule.violation(site, 'the array is resized to %s, computed before %s() at %s may adopt a pending geometry, and not known to exceed the '
+                           'present capacity: buckets in use can be cut off' % (nw.describe(f, v), w.callee, w.loc()), c.loc(), {})
+        else:
+            rule.ok(site, 'NOT DECIDED: requested size %s is neither a growth nor the bucket count' % nw.describe(f, v), c.loc())
+
+
+def writer_of_count(f, call):
+    from ..hashmodel import may_store
+    return may_store(f.module, f.module.fn(call.callee), 'bucket.count')
 
 
 def check_pa_lookup(m, f, rule):
@@ -284,6 +349,61 @@ def check_cleaner(m, f, rule):
             v = f.get(v.o[0])
         if not (v is not None and v.op == 'load' and fld(f, v) == 'bucket.cst'):
             bad.append('the bucket\'s clean bit is set to something other than the table\'s at %s' % s.loc())
+    # path-sensitive: every return is reached either knowing the bucket was clean already (its bit equals the table's)
+    # or after the bucket has been marked -- whatever else the dirty path tests (an empty dirty bucket must be
+    # stamped too: nodes relocated into it later are otherwise skipped by the next rehash)
+    def core(r):
+        i = f.get(r) if isinstance(r, str) else None
+        while i is not None and i.op in ('zext', 'trunc', 'and'):
+            i = f.get(i.o[0]) if isinstance(i.o[0], str) else None
+        return i
+
+    def was_clean(ps):
+        for (op, x, y) in ps.known:
+            if op != 'eq':
+                continue
+            cx, cy = core(x), core(y)
+            if cx is None or cy is None or cx.op != 'load' or cy.op != 'load':
+                continue
+            kinds = set()
+            for c in (cx, cy):
+                if fld(f, c) == 'bucket.cst':
+                    kinds.add('table')
+                a = resolve_addr(f, c.o[0])
+                if a.root == '$1' and a.fsteps[-1:] == (('cstl_hash_bucket', 'cst'),):
+                    kinds.add('bucket')
+            if kinds == {'table', 'bucket'}:
+                return True
+        return False
+
+    def transfer(ins, st, ps):
+        if ins.op == 'call' and ins.x.get('noreturn'):
+            return None
+        if ins in marks:
+            return True
+        return st
+    rel = set()
+    for i in f.all_insts():
+        if i.op == 'load' and (fld(f, i) == 'bucket.cst' or (resolve_addr(f, i.o[0]).root == '$1' and resolve_addr(f, i.o[0]).fsteps[-1:] == (('cstl_hash_bucket', 'cst'),))):
+            rel.add(i.ref)
+    ch = True
+    while ch:
+        ch = False
+        for i in f.all_insts():
+            if i.ref not in rel and i.op in ('zext', 'trunc', 'and', 'icmp', 'xor') and any(o in rel for o in i.o):
+                rel.add(i.ref)
+                ch = True
+    try:
+        res = typestate.run(f, False, transfer, track=lambda r: r in rel, limit=50000)
+        for r, ps in res.exits:
+            if not ps.auto and not was_clean(ps):
+                bad.append('a path reaches the return at %s with the bucket dirty and not marked clean (e.g. a dirty bucket that is empty): nodes '
+                           'relocated into it later in the same rehash are skipped by the next one' % r.loc())
+        if not res.exits:
+            bad.append('no return reached in the cleaner')
+    except typestate.Limit as e:
+        rule.undecided(f.name, str(e), floc(m, f))
+        return
     if bad:
         rule.violation(f.name, '; '.join(sorted(set(bad))[:4]), floc(m, f), {})
     else:
@@ -454,6 +574,49 @@ def check_resize_order(m, f, rule):
                 cst_init = True     # the very value the flip stored (store-to-load forwarding)
             else:
                 bad.append('added buckets are stamped with a clean bit that is not the table\'s flipped one at %s' % s.loc())
+    # the range initialised: [current bucket count, requested count)
+    for g, call in [(f, None)] + [(g, c) for g in helpers for c in f.calls(g.name)]:
+        for s in g.all_insts():
+            if s.op != 'store':
+                continue
+            fl, a = bucket_field(g, s)
+            if fl != 'n' or not a.idx or const_int(s.o[0]) != 0:
+                continue
+            ix = g.get(strip_ext(g, a.idx[-1]))
+            if ix is None or ix.op != 'phi':
+                bad.append('the added buckets emptied at %s are not enumerated by a loop index' % s.loc())
+                continue
+            inits = [o for o in ix.o if not (unit_step(g, o)[0] == ix.ref)]
+
+            def up(v):
+                # a helper's parameter is the caller's argument
+                v = strip_ext(g, v)
+                if call is not None and isinstance(v, str) and v.startswith('$') and v[1:].isdigit() and int(v[1:]) < len(call.o):
+                    return f, strip_ext(f, call.o[int(v[1:])]), call
+                return g, v, s
+            for o in inits:
+                hf, v, at = up(o)
+                vi = hf.get(v) if isinstance(v, str) else None
+                if const_int(v) == 0:
+                    if not any(op == 'eq' and y == 'null' and is_load_of(hf, x, 'bucket.hash') for (op, x, y) in Prover(hf).facts_at(at)):
+                        bad.append('every bucket from 0 is emptied at %s although the table may hold elements' % s.loc())
+                elif vi is not None and vi.op == 'load' and fld(hf, vi) == 'bucket.count':
+                    w = writer_between(hf, vi, at, 'bucket.count')
+                    if w is not None:
+                        bad.append('the first added bucket is taken from a bucket count read at %s, before %s() at %s may adopt a pending geometry: '
+                                   'buckets between the adopted count and the stale one keep an old clean bit (or buckets in use are emptied)'
+                                   % (vi.loc(), w.callee, w.loc()))
+                else:
+                    bad.append('the added buckets emptied at %s do not start at the table\'s current bucket count' % s.loc())
+            # upper bound: the requested count
+            okb = False
+            for (op, x, y) in Prover(g).facts_at(s):
+                if op == 'ult' and strip_ext(g, x) == ix.ref:
+                    hf, v, _ = up(y)
+                    if hf is f and v == '$1':
+                        okb = True
+            if not okb:
+                bad.append('the loop emptying added buckets at %s is not bounded by the requested count' % s.loc())
     if not n_init:
         bad.append('added buckets are not emptied (n := NULL)')
     if not cst_init:
